@@ -28,7 +28,8 @@ RULE = ('host configurations enumerated as a product (all resource-name subsets 
 ASSUMPTIONS = ['sentinels are alphanumeric so that raw, HTML-, JSON- and repr-escaped forms coincide (bytes and ints are '
                'searched by their digits/letters)', 'redaction is decided on the resource *name* containing "secret"']
 
-NAMES = ['secret', 'secret_key', 'db_secret_url', 'my_secretX', 'token', 's', 'payment_gateway_webhook_signing_secret']
+NAMES = ['secret', 'secret_key', 'db_secret_url', 'my_secretX', 'token', 's', 'payment_gateway_webhook_signing_secret',
+         'page_title']      # page_title: also the name of one of the meta application's own resources
 KINDS = ['str', 'bytes', 'int', 'nested', 'reprobj', 'longstr']
 MOUNTS = ['/_meta/', '/m', '/', 'deep']
 MWSETS = ['none', 'cookie', 'custom']
@@ -232,8 +233,8 @@ def check_page(acc, res, spec, view, case, label, expect_failure=None):
 def run_hosts(acc, tier, i, n):
     sets = resource_sets(tier)
     k = 0
-    for spec in sets:
-        for mwset in MWSETS:
+    for si, spec in enumerate(sets):
+        for mwset in (MWSETS if len(spec) <= 1 else [MWSETS[si % len(MWSETS)]]):
             for mount in MOUNTS:
                 k += 1
                 if k % n != i:
